@@ -497,7 +497,10 @@ FIXED_P = ["(Tup @items=[*] -> c)", "(Tup @items=[(Leaf) *] -> c)", "(Leaf @v ->
            "(Leaf @v=$x)", "(Leaf @v->x @s->x)", "", " ", "(", "()", "(Leaf", "(Leaf))", "(Leaf) (Leaf)", "(1)", "(Leaf @1)",
            "(Leaf @v=[)", "(Leaf @v=[*(Leaf)])", "(Leaf @v=[* *])", "(Leaf @v - > x)", "(Leaf @v -> X)", "(Leaf @v=$ x)",
            "(Leaf @v=[] -> e)", "(Leaf @v=[]->e @s=$e)", "\n(Leaf)\n", '(Leaf @s="a\nb")', "(Leaf @v=(Leaf @v=(Leaf @v=(Leaf))))",
-           "(Leaf|)", "(|Leaf)", "(*|Leaf)", "(Leaf|*)", "(Leaf @v=)", "(Leaf @v=*)", "(Leaf @v==None)"]
+           "(Leaf|)", "(|Leaf)", "(*|Leaf)", "(Leaf|*)", "(Leaf @v=)", "(Leaf @v=*)", "(Leaf @v==None)",
+           # escaped quotes at the start, in the middle and at the END of a regex; nothing but an escaped quote; two of them
+           '(Leaf @s="\\"a")', '(Leaf @s="a\\"")', '(Leaf @s="say \\"hi\\"")', '(Leaf @s="\\"")', '(Leaf @s="\\"\\"" -> q)',
+           '(Tup @items=[(Leaf @s="x\\"") -> h *])', '(Leaf @s="a\\\\")', '(Leaf @s="\\\\\\"")']
 FIXED_X = ["/Leaf", "//Leaf", "Leaf", " /Leaf", "/Leaf ", "/@items[1]Leaf", "/@items[12]Leaf", "/@items[0 1]Leaf", "/[]Leaf",
            "/@items", "/", "", "//", "/Nope", "/CodeOrigin", "/Mixed/@items[0]Leaf2", "/Mixed//Leaf", "//@arg Leaf", "/Leaf/",
            "/Leaf//", "/ Mixed / @ z Un", "/Mixed/[1]", "/Mixed/@items[1]Tup", "/1", "/A[", "/@", "/@[1]Leaf", "/Leaf Leaf"]
